@@ -728,6 +728,20 @@ MiniEngine sched_engine() {
 
 } // namespace ys
 
+// addresses (type_info objects under std_rtti, heap) are part of the simulated
+// environment: switch address space randomisation off so that one seed is one
+// execution in every process
+#include <sys/personality.h>
+static void no_aslr(char** argv) {
+    int p = personality(0xffffffff);
+    if (p == -1 || (p & ADDR_NO_RANDOMIZE) || getenv("YS_ASLR_KEPT"))
+        return;
+    if (personality(p | ADDR_NO_RANDOMIZE) == -1)
+        return;
+    setenv("YS_ASLR_KEPT", "1", 1); // never loop
+    execv("/proc/self/exe", argv);
+}
+
 static const char* arg(int argc, char** argv, const char* name, const char* dflt) {
     for (int i = 1; i + 1 < argc; ++i)
         if (!strcmp(argv[i], name))
@@ -743,6 +757,7 @@ static bool flag(int argc, char** argv, const char* name) {
 
 int main(int argc, char** argv) {
     using namespace ys;
+    no_aslr(argv);
     if (argc < 2) {
         fprintf(stderr, "usage: yosched run|replay|gen ...\n");
         return 2;
